@@ -12,6 +12,8 @@ package main
 
 import (
 	"encoding/binary"
+	"encoding/json"
+	"flag"
 	"fmt"
 	"iter"
 	"os"
@@ -985,7 +987,7 @@ func genLong(rng *hx.RNG, shape int) *History {
 	h.Ops = buildTo(h.Ops, rng, 0, h1, at, setA, 0)
 	addQueries := func(k, height int) {
 		for i := 0; i < k; i++ {
-			h.Ops = append(h.Ops, Op{K: "query", Q: genQuery(rng, height-1, points)})
+			h.Ops = append(h.Ops, Op{K: "query", Q: selective(genQuery(rng, height-1, points))})
 		}
 		// one whole-chain query per address set so that every window is touched
 		h.Ops = append(h.Ops, Op{K: "query", Q: &Qry{Addrs: []uint64{setA[0], setB[0]}, From: 0, To: uint64(height + 2)}})
@@ -1061,6 +1063,15 @@ func genLong(rng *hx.RNG, shape int) *History {
 // long histories, second family: reorgs of depth 1..3 around a window edge (head on the last block of a
 // window, on the first block of the next one, or one above), the window cached by queries before and between
 // the reverts, different blocks stored at the same heights afterwards
+// on the 8192-block chains a filter without address and keys makes every block a candidate (thousands of
+// pages under a scan limit): give it an address set
+func selective(q *Qry) *Qry {
+	if len(q.Addrs) == 0 && len(q.Keys) == 0 {
+		q.Addrs = []uint64{10, 12}
+	}
+	return q
+}
+
 func genEdge(rng *hx.RNG) *History {
 	W := int(core.NumBlocksPerFilter)
 	h := &History{Kind: "real", W: uint64(W), NewState: rng.Bool()}
@@ -1071,9 +1082,9 @@ func genEdge(rng *hx.RNG) *History {
 	points := []uint64{0, uint64(W - 3), uint64(W - 1), uint64(W)}
 	queries := func(k int) {
 		for i := 0; i < k; i++ {
-			h.Ops = append(h.Ops, Op{K: "query", Q: genQuery(rng, height-1, points)})
+			h.Ops = append(h.Ops, Op{K: "query", Q: selective(genQuery(rng, height-1, points))})
 		}
-		h.Ops = append(h.Ops, Op{K: "query", Q: &Qry{From: 0, To: uint64(height + 2)}})
+		h.Ops = append(h.Ops, Op{K: "query", Q: &Qry{Addrs: []uint64{10, 12}, From: 0, To: uint64(height + 2)}})
 	}
 	rounds := 3 + rng.Intn(2)
 	for round := 1; round <= rounds; round++ {
@@ -1272,10 +1283,29 @@ func shrink(c *hx.Ctx, or *hx.Oracle, h *History, class string, cfgs []pcfg) (*H
 	return cur, best
 }
 
+// classes registered as known findings of C09 need no shrinking (hx prints them as KNOWN-FINDING)
+var knownClasses = func() map[string]bool {
+	m := map[string]bool{}
+	path := "/verif/known_findings.json"
+	if f := flag.Lookup("known"); f != nil && f.Value.String() != "" {
+		path = f.Value.String()
+	}
+	var all []hx.Known
+	if b, err := os.ReadFile(path); err == nil && json.Unmarshal(b, &all) == nil {
+		for _, k := range all {
+			if k.Property == "C09" && k.Kind == "known" {
+				m[k.ID] = true
+			}
+		}
+	}
+	return m
+}
+
 func report(c *hx.Ctx, or *hx.Oracle, h *History, vs []viol, cfgs []pcfg) {
+	known := knownClasses()
 	for _, v := range vs {
 		hh, vv := h, &v
-		if h.Kind == "real" && blocksOf(h) < 400 {
+		if h.Kind == "real" && blocksOf(h) < 400 && !known[v.class] {
 			if s, sv := shrink(c, or, h, v.class, cfgs); sv != nil {
 				hh, vv = s, sv
 			}
